@@ -282,6 +282,39 @@ func (m *Mast) flush(ctx context.Context) (string, error) {
 		m.root = nil
 		return "", nil
 	}
+	if !m.unmarshalerUsesRegisteredTypes && (m.zeroKey == nil || m.zeroValue == nil) {
+		return "", errors.New("will not be able to figure out which type to unmarshal entries as; set RemoteConfig.{Keys,Values}Like or UnmarshalerUsesRegisteredTypes")
+	}
+
+	versionedMarshaler := func(i interface{}) ([]byte, error) {
+		switch m.nodeFormat {
+		case V1Marshaler:
+			switch x := i.(type) {
+			case mastNode:
+				return m.marshal(x.Node)
+			default:
+				return m.marshal(x)
+			}
+		case V115Binary:
+			node, ok := i.(mastNode)
+			if !ok {
+				return nil, fmt.Errorf("expected mast.mastNode, got %T", i)
+			}
+			return marshalMastNode(&node, m.marshal)
+		}
+		return nil, fmt.Errorf("unknown node format '%v'", m.nodeFormat)
+	}
+
+	// Serialize first, without touching the tree; then write; and only once
+	// every write has succeeded mark the nodes as persisted. A failed flush
+	// therefore leaves the tree fully usable and a retry writes everything
+	// that is still missing.
+	var pending []*pendingStore
+	str, err := node.store(m.persist, m.nodeCache, versionedMarshaler, &pending)
+	if err != nil {
+		return "", err
+	}
+
 	storeQ := make(chan func() error)
 	n := 40
 	gate := make(chan interface{}, n)
@@ -322,37 +355,26 @@ func (m *Mast) flush(ctx context.Context) (string, error) {
 		wg.Done()
 	}()
 
-	if !m.unmarshalerUsesRegisteredTypes && (m.zeroKey == nil || m.zeroValue == nil) {
-		return "", errors.New("will not be able to figure out which type to unmarshal entries as; set RemoteConfig.{Keys,Values}Like or UnmarshalerUsesRegisteredTypes")
-	}
-
-	versionedMarshaler := func(i interface{}) ([]byte, error) {
-		switch m.nodeFormat {
-		case V1Marshaler:
-			switch x := i.(type) {
-			case mastNode:
-				return m.marshal(x.Node)
-			default:
-				return m.marshal(x)
-			}
-		case V115Binary:
-			node, ok := i.(mastNode)
-			if !ok {
-				return nil, fmt.Errorf("expected mast.mastNode, got %T", i)
-			}
-			return marshalMastNode(&node, m.marshal)
+	for _, p := range pending {
+		if p.persisted {
+			continue
 		}
-		return nil, fmt.Errorf("unknown node format '%v'", m.nodeFormat)
+		p := p
+		storeQ <- func() error {
+			err := m.persist.Store(ctx, p.hash, p.encoded)
+			if err != nil {
+				return fmt.Errorf("persist store: %w", err)
+			}
+			return nil
+		}
 	}
-
-	str, err := node.store(ctx, m.persist, m.nodeCache, versionedMarshaler, storeQ)
 	close(storeQ)
 	wg.Wait()
-	if err != nil {
-		return "", err
-	}
 	if firstStoreError != nil {
 		return "", firstStoreError
+	}
+	for _, p := range pending {
+		p.commit(m.persist, m.nodeCache)
 	}
 	m.root = str
 	return str, nil
